@@ -38,8 +38,8 @@ package nets
 // Size equals the number of addresses for every well-formed range list that does not span the
 // whole 32-bit space (the property excludes 0.0.0.0/0, whose size does not fit the counter).
 //@ func [C20,C18] (SparseSubnet).Size
-//@   requires wfRanges(subnet.IPRanges)
-//@   requires forall i int :: 0 <= i && i < len(subnet.IPRanges) ==> val(subnet.IPRanges[i].Last) - val(subnet.IPRanges[0].First) + 1 < 4294967296
+//@   requires [C20] wfRanges(subnet.IPRanges)
+//@   requires [C20] forall i int :: 0 <= i && i < len(subnet.IPRanges) ==> val(subnet.IPRanges[i].Last) - val(subnet.IPRanges[0].First) + 1 < 4294967296
 //@   ensures [C20] result == count(subnet.IPRanges, len(subnet.IPRanges))
 //@   modifies nothing
 //@   loop 0 invariant size == count(subnet.IPRanges, idx)
